@@ -15,7 +15,7 @@ theorem bitLen_spec {n : Nat} (hn : n ≠ 0) : 2 ^ (bitLen n - 1) ≤ n ∧ n < 
 
 theorem bitLen_le_iff {n k : Nat} : bitLen n ≤ k ↔ n < 2 ^ k := by
   by_cases hn : n = 0
-  · subst hn; simp [bitLen, Nat.pow_pos]
+  · subst hn; simp [bitLen]
   · simp only [bitLen, hn, if_false]
     rw [← Nat.log2_lt hn]; omega
 
@@ -203,14 +203,199 @@ theorem preparedDword_eq {W r : Nat} (ok : RadixOK W r (radixInfo W r)) (n : Nat
 
 -- ---------------------------------------------------------------- PreparedMedium
 
+theorem flatMap_congr' {α β : Type} {f g : α → List β} (l : List α) (h : ∀ x ∈ l, f x = g x) :
+    l.flatMap f = l.flatMap g := by
+  induction l with
+  | nil => rfl
+  | cons a l ih =>
+    rw [List.flatMap_cons, List.flatMap_cons, h a (by simp), ih (fun x hx => h x (by simp [hx]))]
+
 /-- what a (top, groups) state prints -/
 def groupsOut (r dpw : Nat) (top : Nat) (groups : List Nat) : List Nat :=
   digits r top ++ groups.flatMap (fun g => digitsPad r dpw g)
 
-theorem mediumLoop_out {W r : Nat} {ri : RadixInfo} (ok : RadixOK W r ri) (v : Nat) (gs : List Nat)
-    (hv : v ≠ 0) :
+theorem mediumLoop_spec {W r : Nat} {ri : RadixInfo} (ok : RadixOK W r ri) (v : Nat) (gs : List Nat)
+    (hv : v ≠ 0) (hgs : ∀ g ∈ gs, g < ri.rpw) :
     groupsOut r ri.dpw (mediumLoop W ri.rpw v gs).1 (mediumLoop W ri.rpw v gs).2 = groupsOut r ri.dpw v gs ∧
-    (∀ g ∈ gs, g < ri.rpw) → (∀ g ∈ (mediumLoop W ri.rpw v gs).2, g < ri.rpw) := by
-  sorry
+    (∀ g ∈ (mediumLoop W ri.rpw v gs).2, g < ri.rpw) := by
+  induction v using Nat.strong_induction_on generalizing gs with
+  | _ v ih =>
+    have h2 := ok.rpw_ge
+    by_cases h : ri.rpw < 2 ∨ v < 2 ^ W
+    · rw [mediumLoop, dif_pos h]; exact ⟨rfl, hgs⟩
+    · rw [mediumLoop, dif_neg h]
+      have hlt := ok.lt
+      have hp : 0 < ri.rpw := by omega
+      have hq : v / ri.rpw ≠ 0 := by
+        have : ri.rpw ≤ v := by omega
+        have := Nat.div_pos this hp; omega
+      have hdl : v / ri.rpw < v := Nat.div_lt_self (Nat.pos_of_ne_zero hv) (by omega)
+      have hgs' : ∀ g ∈ v % ri.rpw :: gs, g < ri.rpw := by
+        intro g hg
+        rcases List.mem_cons.mp hg with h | h
+        · subst h; exact Nat.mod_lt _ hp
+        · exact hgs g h
+      obtain ⟨e, hl⟩ := ih _ hdl (v % ri.rpw :: gs) hq hgs'
+      refine ⟨?_, hl⟩
+      rw [e]
+      unfold groupsOut
+      rw [digits_of_ne_zero hq, digits_of_ne_zero hv, List.flatMap_cons, ← List.append_assoc]
+      congr 1
+      have := digitsAux_div_mod ok.hr ri.dpw v (by rw [← ok.pow]; exact hq)
+      rw [← ok.pow] at this; exact this.symm
+
+/-- `PreparedMedium` prints `digits r n` (for every `n ≠ 0`, whatever its length) -/
+theorem preparedMedium_eq {W r : Nat} (ok : RadixOK W r (radixInfo W r)) (n : Nat) (hn : n ≠ 0) :
+    preparedMedium W r n = digits r n := by
+  unfold preparedMedium
+  generalize hri : radixInfo W r = ri at ok
+  simp only []
+  obtain ⟨e, hl⟩ := mediumLoop_spec ok n [] hn (by simp)
+  rw [preparedWord_one ok.hr]
+  have : (mediumLoop W ri.rpw n []).2.flatMap (fun g => preparedWord r g ri.dpw) =
+      (mediumLoop W ri.rpw n []).2.flatMap (fun g => digitsPad r ri.dpw g) := by
+    apply flatMap_congr'
+    intro g hg
+    exact preparedWord_pad ok.hr _ _ (by rw [← ok.pow]; exact hl g hg)
+  rw [this]
+  have := e
+  unfold groupsOut at this
+  simpa using this
+
+-- ---------------------------------------------------------------- PreparedLarge
+
+theorem chunkGroups_flatMap {W r : Nat} {ri : RadixInfo} (ok : RadixOK W r ri) (c x : Nat) (acc : List Nat) :
+    (chunkGroups ri.rpw c x acc).flatMap (fun g => preparedWord r g ri.dpw) =
+      digitsPad r (c * ri.dpw) x ++ acc.flatMap (fun g => preparedWord r g ri.dpw) := by
+  induction c generalizing x acc with
+  | zero => simp [chunkGroups, digitsPad_zero]
+  | succ c ih =>
+    rw [chunkGroups, ih, List.flatMap_cons, ← List.append_assoc]
+    congr 1
+    have hp : 0 < ri.rpw := by have := ok.rpw_ge; omega
+    rw [preparedWord_pad ok.hr _ _ (by rw [← ok.pow]; exact Nat.mod_lt _ hp)]
+    rw [Nat.succ_mul, digitsPad_add' r (c * ri.dpw) ri.dpw x, ← ok.pow]
+
+theorem writeChunk_eq {W r : Nat} (ok : RadixOK W r (radixInfo W r)) (x : Nat) :
+    writeChunk W r x = digitsPad r (fmtChunkLen * (radixInfo W r).dpw) x := by
+  unfold writeChunk
+  simp only []
+  rw [chunkGroups_flatMap ok]; simp
+
+/-- `radix_powers`, biggest first: `ps[i] = r^(K·2^i)` -/
+def IsTower (r K : Nat) : List Nat → Prop
+  | [] => True
+  | p :: ps => p = r ^ (K * 2 ^ ps.length) ∧ IsTower r K ps
+
+theorem writeBig_eq {W r : Nat} (ok : RadixOK W r (radixInfo W r)) (ps : List Nat) (x : Nat)
+    (ht : IsTower r (fmtChunkLen * (radixInfo W r).dpw) ps) :
+    writeBig W r ps x = digitsPad r (fmtChunkLen * (radixInfo W r).dpw * 2 ^ ps.length) x := by
+  induction ps generalizing x with
+  | nil => simp [writeBig, writeChunk_eq ok]
+  | cons p ps ih =>
+    obtain ⟨hp, ht'⟩ := ht
+    rw [writeBig, ih _ ht', ih _ ht', hp, List.length_cons, pow_succ]
+    have : fmtChunkLen * (radixInfo W r).dpw * (2 ^ ps.length * 2) =
+        fmtChunkLen * (radixInfo W r).dpw * 2 ^ ps.length + fmtChunkLen * (radixInfo W r).dpw * 2 ^ ps.length := by ring
+    rw [this, digitsPad_add']
+
+theorem buildPowers_spec (W n r K : Nat) (fuel : Nat) (ps : List Nat) (hne : ps ≠ [])
+    (ht : IsTower r K ps) (hle : ∀ p ∈ ps, p ≤ n) :
+    buildPowers W n fuel ps ≠ [] ∧ IsTower r K (buildPowers W n fuel ps) ∧ ∀ p ∈ buildPowers W n fuel ps, p ≤ n := by
+  induction fuel generalizing ps with
+  | zero => exact ⟨hne, ht, hle⟩
+  | succ fuel ih =>
+    cases ps with
+    | nil => exact absurd rfl hne
+    | cons prev rest =>
+      simp only [buildPowers]
+      split
+      · exact ⟨hne, ht, hle⟩
+      · split
+        · exact ⟨hne, ht, hle⟩
+        · rename_i _ hnew
+          apply ih
+          · simp
+          · refine ⟨?_, ht⟩
+            rw [ht.1, ← pow_add, List.length_cons, pow_succ]; congr 1; ring
+          · intro p hp
+            rcases List.mem_cons.mp hp with h | h
+            · subst h; omega
+            · exact hle p h
+
+theorem splitRest_spec {W r : Nat} (ok : RadixOK W r (radixInfo W r)) (ps : List Nat) (x : Nat)
+    (acc : List (List Nat × Nat)) (hx : x ≠ 0)
+    (ht : IsTower r (fmtChunkLen * (radixInfo W r).dpw) ps) :
+    (splitRest x ps acc).1 ≠ 0 ∧
+    digits r (splitRest x ps acc).1 ++ (splitRest x ps acc).2.flatMap (fun c => writeBig W r c.1 c.2) =
+      digits r x ++ acc.flatMap (fun c => writeBig W r c.1 c.2) := by
+  induction ps generalizing x acc with
+  | nil => exact ⟨hx, rfl⟩
+  | cons p ps ih =>
+    obtain ⟨hp, ht'⟩ := ht
+    rw [splitRest]
+    by_cases hge : x ≥ p
+    · simp only [hge, if_true]
+      have hppos : 0 < p := by rw [hp]; exact Nat.pow_pos (by have := ok.hr; omega)
+      have hq : x / p ≠ 0 := by have := Nat.div_pos hge hppos; omega
+      obtain ⟨h1, h2⟩ := ih (x / p) ((ps, x % p) :: acc) hq ht'
+      refine ⟨h1, ?_⟩
+      rw [h2, List.flatMap_cons, ← List.append_assoc]
+      congr 1
+      simp only []
+      rw [writeBig_eq ok ps _ ht', digits_of_ne_zero hq, digits_of_ne_zero hx, hp]
+      rw [hp] at hq
+      rw [digitsPad_mod]
+      have := digitsAux_div_mod ok.hr _ x hq
+      rw [digitsPad_mod] at this
+      exact this.symm
+    · simp only [hge, if_false]
+      exact ih x acc hx ht'
+
+/-- `PreparedLarge` prints `digits r n` -/
+theorem preparedLarge_eq {W r : Nat} (ok : RadixOK W r (radixInfo W r)) (n : Nat) (hn : n ≠ 0) :
+    preparedLarge W r n = digits r n := by
+  unfold preparedLarge
+  simp only []
+  by_cases h : (radixInfo W r).rpw ^ fmtChunkLen > n
+  · simp only [h, if_true]; exact preparedMedium_eq ok n hn
+  · simp only [h, if_false]
+    have hinit : IsTower r (fmtChunkLen * (radixInfo W r).dpw) [(radixInfo W r).rpw ^ fmtChunkLen] := by
+      refine ⟨?_, trivial⟩
+      rw [ok.pow, ← pow_mul]; simp [Nat.mul_comm]
+    obtain ⟨hne, ht, hle⟩ := buildPowers_spec W n r _ (wordLen W n + 1) _ (by simp) hinit
+      (by intro p hp; simp at hp; subst hp; omega)
+    cases hb : buildPowers W n (wordLen W n + 1) [(radixInfo W r).rpw ^ fmtChunkLen] with
+    | nil => exact absurd hb hne
+    | cons p rest =>
+      rw [hb] at ht hle
+      simp only []
+      obtain ⟨hp, ht'⟩ := ht
+      have hple : p ≤ n := hle p (by simp)
+      have hppos : 0 < p := by rw [hp]; exact Nat.pow_pos (by have := ok.hr; omega)
+      have hq : n / p ≠ 0 := by have := Nat.div_pos hple hppos; omega
+      obtain ⟨h1, h2⟩ := splitRest_spec ok rest (n / p) [(rest, n % p)] hq ht'
+      rw [preparedMedium_eq ok _ h1, h2]
+      simp only [List.flatMap_cons, List.flatMap_nil, List.append_nil]
+      rw [writeBig_eq ok rest _ ht', digits_of_ne_zero hq, digits_of_ne_zero hn, hp]
+      rw [hp] at hq
+      rw [digitsPad_mod]
+      have := digitsAux_div_mod ok.hr _ n hq
+      rw [digitsPad_mod] at this
+      exact this.symm
+
+/-- **the non-power-of-two printer prints the positional representation**, every size class -/
+theorem fmtNonPow2_eq (W r n : Nat) (hr : 2 ≤ r) (hrW : r < 2 ^ W) : fmtNonPow2 W r n = digits r n := by
+  have ok := radixInfo_ok W r hr hrW
+  unfold fmtNonPow2
+  by_cases h1 : n < 2 ^ W
+  · simp only [h1, if_true]; exact preparedWord_one hr n
+  · simp only [h1, if_false]
+    have hn : n ≠ 0 := by have := Nat.pow_pos (n := W) (by omega : 0 < 2); omega
+    split
+    · exact preparedDword_eq ok n (by have := ok.lt; omega)
+    · split
+      · exact preparedMedium_eq ok n hn
+      · exact preparedLarge_eq ok n hn
 
 end Dashu.Model.Text
